@@ -136,7 +136,10 @@ def gen_cases(tier, seed):
         yield {'handlers': handlers, 'spare': sorted(rng.sample(names, 2)),
                'events': events, 'faults': faults, 'cycles': cycles,
                'world': rng.random() < 0.4, 'extra': extra,
-               'direct': rng.random() < 0.5}
+               'direct': rng.random() < 0.5,
+               # value-like handlers that are falsy objects
+               'falsy_handlers': rng.choice([None, None, None, 'bool',
+                                             'len'])}
 
 
 _budget = None
@@ -245,6 +248,10 @@ def run_case(case):
                 if f is not None and f[0] == k:
                     inject(f[1], token)
             ns['on_' + name] = cb
+        if case.get('falsy_handlers') == 'bool':
+            ns['__bool__'] = lambda self: False
+        elif case.get('falsy_handlers') == 'len':
+            ns['__len__'] = lambda self: 0
         cls = desper.event_handler(**{n: 'on_' + n for n in names})(
             type(f'FH{idx}', (), ns))
         obj = cls()
